@@ -19,3 +19,8 @@ PROP = dict(
                  "file system and serde round trips are not modelled (rd is an arbitrary function in persist_transparent)",
                  "case-insensitive file systems are modelled as ASCII case folding only"],
 )
+
+MANIFEST = dict(
+    text='Coq theorems over the model of the file-name encoding (injectivity for all Unicode strings, no reserved characters, table index in range), of the kerning-instance file key, and of the persistent context map (persistence is invisible for every operation sequence, any stale disk content and any file-name collisions); the model is tied to the code on every run by evaluating it (vm_compute) on the same generated names/locations as the implementation. Partial: serde round trips and the file system are not modelled; byte-identity of fonts with/without --emit-ir is exercised end to end, not proved.',
+    note='Trusted: Coq kernel + vm_compute; hand-written model and its correspondence run; Rust harness. No axioms (Print Assumptions: closed under the global context).',
+)
